@@ -12,8 +12,12 @@ import (
 	"net/url"
 	"strconv"
 	"strings"
+	"time"
 
+	gws "github.com/gobwas/ws"
+	"github.com/gobwas/ws/wsutil"
 	"google.golang.org/genproto/googleapis/api/annotations"
+	"google.golang.org/grpc"
 	"google.golang.org/protobuf/encoding/protojson"
 	"google.golang.org/protobuf/proto"
 	"google.golang.org/protobuf/reflect/protoreflect"
@@ -516,6 +520,7 @@ func runC07(c *Ctx) {
 		return
 	}
 	fx := pf.fx
+	c07Extra(c)
 	type binding struct{ field, jsonName, capture string }
 	type tcase struct {
 		rule  string
@@ -728,4 +733,141 @@ func normValue(field, text string) string {
 		}
 	}
 	return text
+}
+
+// c07Extra: message-typed path variables, many parameters, and the WebSocket transport.
+func c07Extra(c *Ctx) {
+	var got *dynamicpb.Message
+	h := func(ctx context.Context, in *dynamicpb.Message) (proto.Message, error) {
+		got = in
+		return dynamicpb.NewMessage(in.Descriptor().ParentFile().Messages().ByName("Reply")), nil
+	}
+	var wsFirst *dynamicpb.Message
+	ws := func(fx *Fixture, ms *MethodSpec, st grpc.ServerStream) error {
+		m := fx.NewMsg("Req")
+		if err := st.RecvMsg(m); err != nil {
+			return err
+		}
+		wsFirst = m
+		return st.SendMsg(fx.NewMsg("Reply"))
+	}
+	fx, err := NewFixture([]*MethodSpec{
+		{Name: "Dur", In: "Req", Out: "Reply", Unary: h, Rule: getRule("/c07x/dur/{dur}")},
+		{Name: "DurB", In: "Req", Out: "Reply", Unary: h, Rule: postRule("/c07x/durb/{dur}", "*")},
+		{Name: "W64", In: "Req", Out: "Reply", Unary: h, Rule: getRule("/c07x/w/{w64}")},
+		{Name: "Fm", In: "Req", Out: "Reply", Unary: h, Rule: getRule("/c07x/fm/{fm}")},
+		{Name: "Ts", In: "Req", Out: "Reply", Unary: h, Rule: getRule("/c07x/ts/{ts}")},
+		{Name: "Many", In: "Req", Out: "Reply", Unary: h, Rule: getRule("/c07x/many/{name}/{nested.s}")},
+		{Name: "Ws", In: "Req", Out: "Reply", ClientStream: true, ServerStream: true, Stream: ws, Rule: customRule("WEBSOCKET", "/c07x/ws/{name}", "*")},
+	}, nil)
+	if err != nil || fx.RegErr != nil || fx.RegPanic != nil {
+		c.SpecFail("fixture", "c07 extra", fmt.Sprint(err, fx.RegErr, fx.RegPanic), "", "C07/fixture", "fixture")
+		return
+	}
+	defer fx.Close()
+	field := func(m *dynamicpb.Message, name string) string {
+		fd := m.Descriptor().Fields().ByName(protoreflect.Name(name))
+		if fd.Message() != nil {
+			b, _ := protojson.Marshal(m.Get(fd).Message().Interface())
+			return string(b)
+		}
+		return m.Get(fd).String()
+	}
+	type tc struct {
+		method, target, body string
+		field, want          string
+	}
+	var cases []tc
+	for _, capv := range []string{"3s", "0.250s", "0s", "100s"} {
+		want, _ := protojson.Marshal(mustDur(capv))
+		for _, rival := range []string{"dur=1.5s", "dur.nanos=5", "dur.seconds=9", "dur=9s&dur.nanos=7"} {
+			cases = append(cases, tc{"GET", "/c07x/dur/" + capv + "?" + rival, "", "dur", string(want)})
+		}
+		cases = append(cases, tc{"POST", "/c07x/durb/" + capv, `{"dur":"1.5s"}`, "dur", string(want)})
+		cases = append(cases, tc{"POST", "/c07x/durb/" + capv + "?dur.nanos=5", `{"dur":"9.5s","name":"x"}`, "dur", string(want)})
+	}
+	for _, capv := range []string{"0", "7", "-1"} {
+		for _, rival := range []string{"w64=7", "w64=9", "w64.value=3"} {
+			cases = append(cases, tc{"GET", "/c07x/w/" + capv + "?" + rival, "", "w64", `"` + capv + `"`})
+		}
+	}
+	for _, rival := range []string{"fm=owner", "fm.paths=owner", "fm=a,b"} {
+		cases = append(cases, tc{"GET", "/c07x/fm/title?" + rival, "", "fm", `"title"`})
+	}
+	// many parameters of mixed depth around the rivals (any order the query map yields)
+	for rep := 0; rep < c.N(30, 300); rep++ {
+		q := url.Values{}
+		for i, k := range []string{"i32", "i64", "u32", "u64", "flag", "db", "fl", "kind", "other_name", "nested.n", "nested.kind", "nested.child.s", "nested.child.n", "nested.tags", "rs", "ri", "wstr", "oa"} {
+			if c.Rng.Intn(5) > 0 {
+				q.Set(k, []string{"1", "2", "3", "true", "1.5", "2", "x", "7", "9", "t", "s", "4", "1", "1", "zz", "y"}[(i+rep)%16])
+			}
+		}
+		for _, k := range []string{"flag", "kind", "nested.kind", "i32", "i64", "u32", "u64", "db", "fl", "nested.n", "nested.child.n", "ri"} {
+			if q.Has(k) {
+				q.Set(k, map[string]string{"flag": "true", "kind": "ALPHA", "nested.kind": "BETA", "db": "1.5", "fl": "2.5"}[k])
+				if q.Get(k) == "" {
+					q.Set(k, strconv.Itoa(1+c.Rng.Intn(90)))
+				}
+			}
+		}
+		q.Set("name", "QUERY")
+		q.Set("nested.s", "QUERYNESTED")
+		cases = append(cases, tc{"GET", "/c07x/many/PATH/PATHNESTED?" + q.Encode(), "", "name", "PATH"})
+	}
+	for _, t := range cases {
+		var r = httptest.NewRequest(t.method, t.target, nil)
+		if t.body != "" {
+			r = httptest.NewRequest(t.method, t.target, strings.NewReader(t.body))
+			r.Header.Set("Content-Type", "application/json")
+		}
+		got = nil
+		rec, pn := fx.Serve(r)
+		in := t.method + " " + truncS(t.target, 300) + " body=" + t.body
+		c.Eval("path-wins-extra", in, true)
+		c.Class("extra:" + t.field)
+		if pn != nil || rec.Code != 200 || got == nil {
+			c.SpecFail("path-wins-extra", in, fmt.Sprintf("%d %s panic=%v", rec.Code, truncS(rec.Body.String(), 120), pn), "200", "C07/extra/refused", "a valid request with competing values is refused")
+			continue
+		}
+		if g := field(got, t.field); g != t.want {
+			c.SpecFail("path-wins-extra", in, t.field+"="+g, t.want, "C07/path-overridden/"+t.field, "a query parameter or body value replaced (or was merged into) the value captured from the path")
+		}
+		if strings.HasPrefix(t.target, "/c07x/many/") {
+			nested := got.Get(got.Descriptor().Fields().ByName("nested")).Message()
+			if g := nested.Get(nested.Descriptor().Fields().ByName("s")).String(); g != "PATHNESTED" {
+				c.SpecFail("path-wins-extra", in, "nested.s="+g, "PATHNESTED", "C07/path-overridden/nested.s", "a query parameter replaced the value captured from the path")
+			}
+		}
+	}
+	// WebSocket: the first frame carries a value for the path-bound field
+	for _, frame := range []string{`{"name":"BODY"}`, `{"name":"BODY","otherName":"o"}`, `{}`} {
+		wsFirst = nil
+		url := "ws" + strings.TrimPrefix(fx.HTTPServer().URL, "http") + "/c07x/ws/PATH?name=QUERY"
+		ctx, cancel := context.WithTimeout(context.Background(), 3*time.Second)
+		conn, _, _, err := gws.Dial(ctx, url)
+		cancel()
+		in := "websocket /c07x/ws/PATH?name=QUERY first frame " + frame
+		c.Eval("path-wins-ws", in, true)
+		c.Class("extra:ws")
+		if err != nil {
+			c.SpecFail("path-wins-ws", in, err.Error(), "a connection", "C07/ws/dial", "websocket dial failed")
+			continue
+		}
+		conn.SetDeadline(time.Now().Add(3 * time.Second))
+		wsutil.WriteClientMessage(conn, gws.OpText, []byte(frame)) //nolint
+		wsutil.ReadServerData(conn)                                //nolint
+		conn.Close()
+		time.Sleep(5 * time.Millisecond)
+		if wsFirst == nil {
+			c.SpecFail("path-wins-ws", in, "handler received nothing", "a first message", "C07/ws/no-message", "the websocket handler did not receive the first message")
+		} else if g := field(wsFirst, "name"); g != "PATH" {
+			c.SpecFail("path-wins-ws", in, "name="+g, "PATH", "C07/path-overridden/ws-name", "over WebSocket the first frame or the query replaced the value captured from the path")
+		}
+	}
+}
+
+func mustDur(s string) proto.Message {
+	d := &durationpb.Duration{}
+	protojson.Unmarshal([]byte(`"`+s+`"`), d) //nolint
+	return d
 }
